@@ -121,3 +121,131 @@ def _extract_helper(src):
 
 
 M2("c01-benign-helper", "C01", "", [{"file": "operation/step.py", "fn": _extract_helper}], expect="silent")
+
+# ----------------------------------------------------------------------------- C02
+M("c02-step-raises-original", "C02", "R1.exception-class-agreement", "operation/step.py",
+  "        raise error_object.to_callable_runtime_error()\n", "        raise error\n")
+M("c02-child-des-default-serdes", "C02", "R2.serdes-symmetry", "operation/child.py",
+  """            result: T = deserialize(
+                serdes=self.config.serdes,""", """            result: T = deserialize(
+                serdes=None,""")
+M("c02-callback-raises-on-failed", "C02", "R3.deferred-callback-errors", "operation/callback.py",
+  """        if checkpointed_result.is_existent():
+            if (""", """        if checkpointed_result.is_existent():
+            if checkpointed_result.is_failed():
+                checkpointed_result.raise_callable_error()
+            if (""")
+M("c02-step-records-other-payload", "C02", "R2.payload-is-returned-value", "operation/step.py",
+  """                identifier=self.operation_identifier,
+                payload=serialized_result,
+            )""", """                identifier=self.operation_identifier,
+                payload="",
+            )""")
+M("c02-error-fields-swapped", "C02", "R4.error-field-agreement", "lambda_service.py",
+  """            message=self.message,
+            error_type=self.type,
+            data=self.data,""", """            message=self.message,
+            error_type=self.message,
+            data=self.data,""")
+M("c02-wfc-restores-with-default", "C02", "R2.poll-state-serdes", "operation/wait_for_condition.py",
+  """                current_state = deserialize(
+                    serdes=self.config.serdes,""", """                current_state = deserialize(
+                    serdes=None,""")
+M("c02-child-raises-original", "C02", "R1.exception-class-agreement", "operation/child.py",
+  "            raise error_object.to_callable_runtime_error() from e\n", "            raise\n")
+M("c02-benign-local-rename", "C02", "", "operation/step.py",
+  "        raise error_object.to_callable_runtime_error()\n",
+  "        runtime_error = error_object.to_callable_runtime_error()\n        raise runtime_error\n", expect="silent")
+
+# ----------------------------------------------------------------------------- C03
+M("c03-step-succeed-async", "C03", "R1.record-before-outcome", "operation/step.py",
+  "            self.state.create_checkpoint(operation_update=success_operation)\n",
+  "            self.state.create_checkpoint(operation_update=success_operation, is_sync=False)\n")
+M("c03-wait-start-async", "C03", "R1.record-before-outcome", "operation/wait.py",
+  "            self.state.create_checkpoint(operation_update=operation, is_sync=True)",
+  "            self.state.create_checkpoint(operation_update=operation, is_sync=False)")
+M("c03-wfc-retry-async", "C03", "R1.record-before-outcome", "operation/wait_for_condition.py",
+  "            self.state.create_checkpoint(operation_update=retry_operation)\n",
+  "            self.state.create_checkpoint(operation_update=retry_operation, is_sync=False)\n")
+M("c03-child-fail-async", "C03", "R1.record-before-outcome", "operation/child.py",
+  "            self.state.create_checkpoint(operation_update=fail_operation)\n",
+  "            self.state.create_checkpoint(operation_update=fail_operation, is_sync=False)\n")
+M("c03-consumer-drop-merge", "C03", "R3.", "state.py",
+  """                    self.fetch_paginated_operations(
+                        output.new_execution_state.operations,
+                        output.checkpoint_token,
+                        output.new_execution_state.next_marker,
+                    )
+""", "")
+M("c03-lifo-queue", "C03", "R4.fifo-queue", "state.py",
+  "        self._checkpoint_queue: queue.Queue[QueuedOperation] = queue.Queue()",
+  "        self._checkpoint_queue: queue.Queue[QueuedOperation] = queue.LifoQueue()")
+M("c03-empty-checkpoint-not-waited", "C03", "R2.put-then-wait-same-event", "state.py",
+  "        if is_sync:\n            logger.debug(\"Enqueued checkpoint operation for synchronous processing\")",
+  "        if is_sync and operation_update is not None:\n            logger.debug(\"Enqueued checkpoint operation for synchronous processing\")")
+M("c03-wrapper-large-result-async", "C03", "R5.wrapper-success-after-record", "execution.py",
+  """                        execution_state.create_checkpoint(
+                            success_operation, is_sync=True
+                        )""", """                        execution_state.create_checkpoint(
+                            success_operation, is_sync=False
+                        )""")
+M("c03-step-catches-baseexception", "C03", "R1.record-before-outcome", "operation/step.py",
+  "        except Exception as e:\n            if isinstance(e, ExecutionError):",
+  "        except BaseException as e:\n            if isinstance(e, ExecutionError):")
+M("c03-default-async", "C03", "R", "state.py",
+  "        is_sync: bool = True,  # noqa: FBT001, FBT002", "        is_sync: bool = False,  # noqa: FBT001, FBT002")
+M("c03-success-set-before-merge", "C03", "R3.set-after-api-and-merge", "state.py",
+  """                    # Fetch new operations from the API before unblocking sync waiters
+                    self.fetch_paginated_operations(
+                        output.new_execution_state.operations,
+                        output.checkpoint_token,
+                        output.new_execution_state.next_marker,
+                    )
+
+                    # Signal completion for any synchronous operations
+                    for queued_op in batch:
+                        if queued_op.completion_event is not None:
+                            queued_op.completion_event.set()
+""", """                    # Signal completion for any synchronous operations
+                    for queued_op in batch:
+                        if queued_op.completion_event is not None:
+                            queued_op.completion_event.set()
+
+                    self.fetch_paginated_operations(
+                        output.new_execution_state.operations,
+                        output.checkpoint_token,
+                        output.new_execution_state.next_marker,
+                    )
+""")
+M("c03-benign-explicit-sync", "C03", "", "operation/step.py",
+  "            self.state.create_checkpoint(operation_update=success_operation)\n",
+  "            self.state.create_checkpoint(operation_update=success_operation, is_sync=True)\n", expect="silent")
+
+# ----------------------------------------------------------------------------- C04
+M("c04-start-only-when-absent", "C04", "R1.sync-start-before-function", "operation/step.py",
+  """        if not checkpointed_result.is_existent() or (
+            checkpointed_result.is_started_or_ready()
+            and not checkpointed_result.is_started()
+        ):""", """        if not checkpointed_result.is_existent():""", desc="the repaired defect, re-introduced")
+M("c04-start-async-for-at-most-once", "C04", "R1.sync-start-before-function", "operation/step.py",
+  """            is_sync: bool = (
+                self.config.step_semantics is StepSemantics.AT_MOST_ONCE_PER_RETRY
+            )""", """            is_sync: bool = False""")
+M("c04-started-reexecutes", "C04", "R", "operation/step.py",
+  """            and self.config.step_semantics is StepSemantics.AT_MOST_ONCE_PER_RETRY
+        ):
+            # Step was previously interrupted""", """            and self.config.step_semantics is StepSemantics.AT_LEAST_ONCE_PER_RETRY
+            and False
+        ):
+            # Step was previously interrupted""")
+M("c04-no-refresh-check", "C04", "R3.refreshed-status-must-be-started", "operation/step.py",
+  """                if not refreshed_result.is_started():""", """                if not refreshed_result.is_existent():""")
+M("c04-interrupted-error-swapped", "C04", "R2.started-means-interrupted", "operation/step.py",
+  """            self.retry_handler(StepInterruptedError(msg), checkpointed_result)""",
+  """            self.retry_handler(ExecutionError(msg), checkpointed_result)""")
+M("c04-benign-inverted-flag", "C04", "", "operation/step.py",
+  """            is_sync: bool = (
+                self.config.step_semantics is StepSemantics.AT_MOST_ONCE_PER_RETRY
+            )""", """            is_sync: bool = (
+                self.config.step_semantics is not StepSemantics.AT_LEAST_ONCE_PER_RETRY
+            )""", expect="silent")
